@@ -47,8 +47,12 @@ def run(F, R, tier):
         # to_public: private members None, public members kept — by abstract evaluation
         fn = path + "::to_public"
         if r1.anchor(F.hir(fn), fn):
-            tab = SR.Table(F, fn, rule=r1)
-            for q in tab.paths:
+            # evaluated on a structured `self` (one symbol per member), so that "clone, then clear the private members" and a literal are the
+            # same thing to the rule
+            import sibling as SB
+            selfv = sym.St(path, {f_["name"]: sym.Sym(("field", SR.SELF, f_["name"])) for f_ in fs})
+            tab_paths = SB.explore(F, fn, [selfv], rule=r1)
+            for q in tab_paths:
                 out = q.ret
                 if not r1.require(isinstance(out, sym.St) and out.ty == path, (fn, "literal"), "%s::to_public does not build a %s value the evaluator can see: %r" % (ty, ty, out)):
                     continue
